@@ -59,6 +59,7 @@ def pasdw_reduce(fn, coefs_i, funcs_ig, augfeat_g, indset):
     assert coefs_i.size == ni
     assert indset.shape == (ng, 3)
     assert indset.dtype == np.int32
+    assert coefs_i.dtype == funcs_ig.dtype == augfeat_g.dtype == np.float64
     n1, n2, n3 = augfeat_g.shape
     fn(
         coefs_i.ctypes.data_as(ctypes.c_void_p),
